@@ -596,6 +596,48 @@ void World::table_check(const std::string& op, int64_t touched)
     }
 }
 
+void World::table_read_all()
+{
+    auto& T = *tstate;
+    auto tt = T.lib->track();
+    auto pt = T.lib->playlist();
+    auto et = T.lib->playlist_entity();
+    auto guard = [&](auto&& fn) { (void)call(FaultSpec{}, fn); };
+    std::vector<int64_t> ids;
+    guard([&] { ids = tt.all_ids(); });
+    for (auto id : ids)
+    {
+        guard([&] { (void)tt.get(id); });
+        guard([&] { (void)tt.exists(id); });
+        for (auto& c : columns())
+            if (c.min_range <= T.range)
+                guard([&] { (void)c.get(tt, id); });
+    }
+    guard([&] { (void)tt.exists(987654); });
+    std::vector<int64_t> lids;
+    guard([&] { lids = pt.all_ids(); });
+    guard([&] { (void)pt.root_ids(); });
+    for (auto id : lids)
+    {
+        guard([&] { (void)pt.get(id); });
+        guard([&] { (void)pt.exists(id); });
+        guard([&] { (void)pt.child_ids(id); });
+        guard([&] { (void)pt.descendant_ids(id); });
+        guard([&] { (void)et.track_ids(id); });
+        guard([&] { (void)et.get_for_list(id); });
+        guard([&] {
+            auto row = pt.get(id);
+            if (row)
+            {
+                (void)pt.find_ids(row->title);
+                (void)pt.find_id(row->parent_list_id, row->title);
+                (void)pt.find_root_id(row->title);
+            }
+        });
+    }
+    guard([&] { (void)T.lib->information().get(); });
+}
+
 void World::table_sync_from_db()
 {
     auto& T = *tstate;
@@ -663,7 +705,17 @@ bool World::exec_table_op(const Step& s)
     auto finish = [&](const std::string& op, const Outcome& o, int64_t touched) {
         if (!atomic)
         {
-            table_check(op, touched);
+            if (check(CK_PURITY) && !o.fault_fired)
+            {
+                // the read side of the table API is an observation too (C16)
+                check_purity_begin();
+                table_check(op, touched);
+                check_purity_end("table-check");
+                purity_extras();
+                probes.hit("purity_checked");
+            }
+            else
+                table_check(op, touched);
             return;
         }
         StepEffect e;
